@@ -205,6 +205,35 @@ Theorem quiescent_blocked_behind_running_function : forall scripts sched t th o,
 Proof. exact quiescent_blocked_l. Qed.
 Print Assumptions quiescent_blocked_behind_running_function.
 
+(* No lost wake-up (history level).  Once the call a thread waits for is done, the waiter can move, and
+   that stays so whatever the OTHER threads do - any number of steps on any keys, the waiter's own key
+   included - until the waiter itself is scheduled: the release of a waiter cannot be consumed by anybody
+   else.  (Pinned.shared_cond_signal_strands_waiter_refuted: one condition variable for all keys + Signal;
+   the check's wake-order family demands this of the implementation for every parking order.) *)
+Theorem released_waiter_stays_enabled : forall scripts sched more t th o c,
+  let s := exec scripts sched in
+  nth_error (threads s) t = Some th -> cur_op th = Some o ->
+  tpc th = PWait c -> cdone (heap s c) = true -> ~ In t more ->
+  let s2 := exec scripts (sched ++ more) in
+  nth_error (threads s2) t = Some th /\ enabled s2 t = true.
+Proof. exact released_waiter_stays_enabled_l. Qed.
+Print Assumptions released_waiter_stays_enabled.
+
+(* hypotheses met: a1 and b1 run, b2 and a2 wait, a1 returns: a2 (thread 3) waits for a done call; then b1
+   finishes, b2 runs and returns - a2 still can move *)
+Definition ex_rw_scripts : list (list op) :=
+  [[mkOp GLC 1 101 0]; [mkOp GLC 2 201 0]; [mkOp GLC 2 301 0]; [mkOp GLC 1 401 0]].
+Definition ex_rw_sched : list nat := [0;0;0; 1;1;1; 2;2; 3;3; 0;0;0].
+Example ex_released_waiter :
+  option_map (fun th => match tpc th with
+                        | PWait c => cdone (heap (exec ex_rw_scripts ex_rw_sched) c)
+                        | _ => false
+                        end) (nth_error (threads (exec ex_rw_scripts ex_rw_sched)) 3) = Some true.
+Proof. vm_compute. reflexivity. Qed.
+Example ex_released_waiter_later :
+  enabled (exec ex_rw_scripts (ex_rw_sched ++ [1;1;1; 2;2;2;2;2;2; 0; 1])) 3 = true.
+Proof. vm_compute. reflexivity. Qed.
+
 (* Generation of a call entry.  The epilogue deletes BY KEY; that is the deletion of the call's OWN
    entry: whenever a thread is about to delete (pc PFnDone c) the entry under its key is its own
    object c, led by this very call and not released.  An entry of the map always belongs to the
